@@ -202,6 +202,39 @@ def prune_in_place(ex):
     return env.get("dirnames") is ex.walk_objects["dirnames"]
 
 
+def dirx_uf(ex, node, args, kwargs):
+    """self._is_dir_excluded(dirname, rel_path, current_dir, tool_ignore, walk_root) as a function of its arguments (its own
+    contract says which function: exclude / gitignore / tool-ignore match of name/ or path/)"""
+    d, rel, cur, ti, root = args[-5:]
+    f = ex.th.uf("spec_dir_excluded", ex.th.Str, Ref, Ref, Bool, Ref, Ref, Bool)
+    tin = ti.is_none if isinstance(ti, VOpt) else z3.BoolVal(ti is None)
+    tiv = ex.z(ti.val) if isinstance(ti, VOpt) else (z3.Const("nil!ref", Ref) if ti is None else ex.z(ti))
+    return Sym(f(ex.z(d), ex.z(rel), ex.z(cur), tin, tiv, ex.z(root)), "bool")
+
+
+def pruned_names_only(ex):
+    """C17 walk.prune: when the iteration is over, every name still in the list object os.walk yielded (= every directory
+    os.walk will descend into) is one that _is_dir_excluded does NOT exclude, judged with the name, its path relative to the
+    walk root, the current directory, the tool ignore file and the walk root -- whatever else the iteration did or skipped"""
+    env = ex.envs[0]
+    dn = ex.walk_objects["dirnames"]
+    s = env["self"]
+    root = ex.old_envs[0]["root"]
+    dirpath = env.get("dirpath")
+    if dirpath is None:
+        return False
+    cur = Sym(ex.th.uf("call_Path", ex.th.Str, Ref)(ex.z(dirpath)), "ref", "Path")
+    rel = Sym(ex.th.uf("call_Path_relative_to", Ref, Ref, Ref)(cur.t, ex.z(root)), "ref", "Path")
+    ti = env.get("tool_ignore")
+    if ti is None:
+        return False
+    def excluded(c):
+        d = ex.list_get(dn, c)
+        r = dirx_uf(ex, None, [d, ex.unit.path_join(ex, rel, d), cur, ti, root], {})
+        return FT(z3.Not(ex.b(ex.truth(r))))
+    return FAll("k", 0, dn.length, excluded, "pruned")
+
+
 def no_followlinks(ex):
     w = [e for e in ex.log if e[0] == "OS_WALK"]
     return len(w) == 1 and w[0][1]["nargs"] == 1 and not w[0][1]["kwargs"] and ex.eq(w[0][1]["top"], ex.old_envs[0]["root"]) is not False
@@ -229,13 +262,14 @@ contract(Contract(
         "Path.is_symlink": Callee("uf", ret="bool", sig=["self"]),
         "Path.as_posix": Callee("uf", ret="str", sig=["self"]),
         "PathSpec.match_file": Callee("uf", ret="bool", sig=["self", "file"]),
-        "self._is_dir_excluded": Callee("uf", ret="bool", sig=["self_", "dirname", "rel_path", "current_dir", "tool_ignore", "walk_root"]),
+        "self._is_dir_excluded": Callee("custom", handler=dirx_uf),
         "self._get_gitignore_chain": Callee("custom", handler=chain_uf),
         "self._gitignored": Callee("custom", handler=gitignored_uf),
         "self._exceeds_max_size": Callee("custom", handler=exceeds_uf),
     },
     loops={
-        0: Loop(inv={}, body_ensures={"prune_in_place": Clause(prune_in_place, props=["C17"])}),
+        0: Loop(inv={}, body_ensures={"prune_in_place": Clause(prune_in_place, props=["C17"]),
+                                      "only_unexcluded_names_left": Clause(pruned_names_only, props=["C17", "C18"])}),
         1: Loop(inv={}, body_ensures={"yield_iff": Clause(yield_iff, props=["C17", "C18"])}),
     },
     ensures={"no_followlinks": Clause(no_followlinks, props=["C17"])},
@@ -424,6 +458,9 @@ R_INV = {
     "canonical": "all(uf('is_resolved', 'bool', result[k]) for k in range(len(result)))",
     "in_seen": "all(result[k] in seen for k in range(len(result)))",
     "distinct": "all(pos[result[k]] == k for k in range(len(result)))",
+    # a path is remembered as seen only when it is listed: an argument that is filtered out must not hide the same file from
+    # a later argument that legitimately yields it (C17: independent of argument order, nothing that passes is missed)
+    "seen_only_listed": "nseen == len(result)",
 }
 
 def every_directory_walked(ex):
@@ -449,11 +486,12 @@ contract(Contract(
     params={"paths": "list[str]"},
     self_cls="FileResolver",
     setup=resolve_setup,
-    types={"seen": "refset", "pos": "refmap:int", "result": "list[ref:Path]", "p": "ref:Path", "resolved": "ref:Path",
+    types={"seen": "refset", "pos": "refmap:int", "nseen": "int", "result": "list[ref:Path]", "p": "ref:Path", "resolved": "ref:Path",
            "found": "ref:Path", "raw_path": "str"},
-    ghost={"pos": "{}"},
+    ghost={"pos": "{}", "nseen": "0"},
     # (the appended value itself, not the local it happens to be called by)
-    hooks=[("after", "call:result.append", "pos[result[len(result) - 1]] = len(result) - 1")],
+    hooks=[("after", "call:result.append", "pos[result[len(result) - 1]] = len(result) - 1"),
+           ("after", "call:seen.add", "nseen = nseen + 1")],
     calls={
         "Path": Callee("uf", ret="ref:Path", sig=["p"]),
         "Path.is_file": Callee("uf", ret="bool", sig=["self"]),
@@ -465,9 +503,9 @@ contract(Contract(
         "self._walk_directory": Callee("effect", ret="list[ref:Path]", effect="WALK", sig=["self_", "root"]),
         "self._expand_glob": Callee("effect", ret="list[ref:Path]", effect="GLOB", sig=["self_", "pattern"]),
     },
-    loops={0: Loop(inv=R_INV, modifies=["pos"], decreases="len(paths) - _i",
+    loops={0: Loop(inv=R_INV, modifies=["pos", "nseen"], decreases="len(paths) - _i",
                    body_ensures={"every_directory_walked": Clause(every_directory_walked)}),
-           1: Loop(inv=R_INV, modifies=["pos"]), 2: Loop(inv=R_INV, modifies=["pos"])},
+           1: Loop(inv=R_INV, modifies=["pos", "nseen"]), 2: Loop(inv=R_INV, modifies=["pos", "nseen"])},
     raises=("FileNotFoundError",),
     ensures={"sorted_distinct": Clause(strictly_sorted),
              "canonical": "all(uf('is_resolved', 'bool', result[k]) for k in range(len(result)))"},
